@@ -12,6 +12,12 @@ Section FifoBridge.
   Local Open Scope list_scope.
   Local Open Scope nat_scope.
 
+  (* states equal up to the arithmetic form of their fields *)
+  Lemma fifol_eq (a a' : fifol K V) :
+    fl_cap a = fl_cap a' -> fl_list a = fl_list a' -> fl_cells a = fl_cells a' -> fl_index a = fl_index a' ->
+    fl_used a = fl_used a' -> a = a'.
+  Proof. destruct a, a'; simpl; intros; subst; reflexivity. Qed.
+
   (* case analysis on an innermost scrutinee of the goal *)
   Ltac inner :=
     match goal with
@@ -39,10 +45,28 @@ Section FifoBridge.
            | H : true = false |- _ => discriminate H
            | H : false = true |- _ => discriminate H
            end.
-  Ltac crush := repeat (proj; inner; clean); proj; simpl; try congruence; auto.
+  (* residual arithmetic: the source may write the same counter update in several ways (m_used_size += 1 for
+     ++m_used_size, `< 1` or `!= 0` negated for `== 0`, `b <= a` for `a >= b`, ...): boolean comparisons become
+     Props and lia decides *)
+  Ltac bprop :=
+    repeat match goal with
+           | H : negb _ = true |- _ => apply Bool.negb_true_iff in H
+           | H : negb _ = false |- _ => apply Bool.negb_false_iff in H
+           | H : (_ <? _) = true |- _ => apply Nat.ltb_lt in H
+           | H : (_ <? _) = false |- _ => apply Nat.ltb_ge in H
+           | H : (_ =? _) = true |- _ => apply Nat.eqb_eq in H
+           | H : (_ =? _) = false |- _ => apply Nat.eqb_neq in H
+           | H : (_ <=? _) = true |- _ => apply Nat.leb_le in H
+           | H : (_ <=? _) = false |- _ => apply Nat.leb_gt in H
+           end.
+  Ltac fields := apply fifol_eq; cbn [fl_cap fl_list fl_cells fl_index fl_used]; solve [ reflexivity | lia ].
+  Ltac arith := solve [ bprop; first [ exfalso; lia | lia | fields | apply (f_equal Ok); fields | f_equal; lia ] ].
+  Ltac crush := repeat (proj; inner; clean); proj; simpl; try congruence; auto; try arith.
+  (* two successor states that differ at most in the way m_used_size is written *)
+  Ltac steq := cbv beta iota delta [req]; first [ reflexivity | fields | apply (f_equal Ok); fields ].
   (* use of an already bridged callee: its lemma goes in front of the goal, the case analysis does the rest *)
   Ltac callee L := let P := fresh "P" in pose proof L as P; unfold req in P; revert P.
-  Ltac finish := intros; clean; subst; try contradiction; try congruence; auto.
+  Ltac finish := intros; clean; subst; try contradiction; try congruence; auto; try arith.
 
   Lemma vget_upd A w (l : list A) i x : i < List.length l -> vget w (upd_nth i x l) i = Ok x.
   Proof. intros L. apply vget_inv. apply nth_error_upd_same; auto. Qed.
@@ -95,7 +119,10 @@ Section FifoBridge.
          cbn [opt_has_value opt_value bind]; proj.
     all: try (destruct (index_erase (fl_index s) (Some k0)) as [ix|]; cbn [bind]; [|simpl; auto]; proj;
               rewrite ?N; cbn [bind]; rewrite !vset_lt by auto; cbn [bind]; proj).
-    all: destruct (fl_used s =? 0); simpl; auto.
+    (* the decrement: whatever the guard of the source is, it fails exactly when m_used_size is 0 *)
+    all: destruct (fl_used s =? 0) eqn:U0;
+         repeat match goal with |- context [if ?c then _ else _] => let U := fresh "U" in destruct c eqn:U end;
+         cbn [bind req]; auto; arith.
   Qed.
 
   Lemma l_prev_it (l : list nat) i j : l_prev l i = Ok j -> exists m, j = It m.
@@ -126,12 +153,12 @@ Section FifoBridge.
       unfold umap_emplace. rewrite (index_erase_keeps_absent _ _ _ _ Ex A).
       destruct (index_emplace (fl_cap s) ix k m) as [ix2|]; cbn [bind]; [|simpl; auto]. proj.
       rewrite nth_error_upd_same by auto. cbn [bind]. rewrite vset_upd by auto. rewrite vset_lt by auto. cbn [bind].
-      unfold set_fl_cells, set_fc_keyed, set_fc_val. simpl. reflexivity.
+      unfold set_fl_cells, set_fc_keyed, set_fc_val. simpl. steq.
     - rewrite vset_lt by auto. cbn [bind]. proj.
       unfold umap_emplace. rewrite A.
       destruct (index_emplace (fl_cap s) (fl_index s) k m) as [ix2|]; cbn [bind]; [|simpl; auto]. proj.
       rewrite nth_error_upd_same by auto. cbn [bind]. rewrite vset_upd by auto. rewrite vset_lt by auto. cbn [bind].
-      unfold set_fl_cells, set_fc_keyed, set_fc_val. simpl. reflexivity.
+      unfold set_fl_cells, set_fc_keyed, set_fc_val. simpl. steq.
   Qed.
 
   Lemma g_do_insert_update_ok (s : fifol K V) k v a : req (g_do_insert_update s k v a) (fl_ins s k v a).
@@ -171,7 +198,8 @@ Section FifoBridge.
     { clear. induction l as [|[[z k] v] r IH]; intros s n; simpl; auto.
       callee (g_do_insert_update_ok s k v a). unfold bind at 1 2 3.
       destruct (g_do_insert_update s k v a) as [[s1 b]|], (fl_ins s k v a) as [[s2 b2]|]; intros P; try contradiction; auto.
-      inversion P; subst. destruct b2; cbn [bind]; apply IH. }
+      inversion P; subst. destruct b2; cbn [bind].
+      all: match goal with |- req (foldM _ _ (_, ?m)) (fl_ins_range _ _ _ ?m') => replace m with m' by lia end; apply IH. }
     specialize (G l s 0). revert G.
     destruct (foldM _ _ _) as [[s' n']|]; cbn [bind]; auto.
   Qed.
@@ -191,7 +219,8 @@ Section FifoBridge.
       destruct (assoc k (fl_index s)) as [idx|] eqn:A; cbn [bind]; [|apply IH].
       rewrite A. cbn [bind]. callee (g_do_erase_ok s idx).
       destruct (g_do_erase s (It idx)) as [s1|], (fl_do_erase s idx) as [s2|]; simpl; intros P; try contradiction; auto.
-      subst. apply IH. }
+      subst. match goal with |- req (foldM _ _ (_, ?m)) (fl_erase_range _ _ ?m') => replace m with m' by lia end.
+      apply IH. }
     specialize (G l s 0). revert G.
     destruct (foldM _ _ _) as [[s' n']|]; cbn [bind]; auto.
   Qed.
@@ -216,7 +245,8 @@ Section FifoBridge.
 
   Lemma g_find_iter_ok (s : fifol K V) l d : req (g_find_iter s l d) (do os <- fl_find_range s l; Ok (s, os)).
   Proof.
-    unfold g_find_iter. destruct (0 <? d); cbn [bind].
+    unfold g_find_iter.
+    match goal with |- context [if ?c then Ok s else Ok s] => destruct c end; cbn [bind].
     all: match goal with |- req (bind (foldM ?F _ _) _) _ => pose proof (g_find_loop F) as G end;
       specialize (G (fun s acc k => eq_refl) l s []); revert G;
       destruct (foldM _ _ _) as [[s' n']|]; cbn [bind]; destruct (fl_find_range s l) as [os|]; simpl; auto.
@@ -280,6 +310,9 @@ Section FifoBridge.
     req (g_step s e) (fl_step s (e_op e) (e_now e) (e_rnd e)).
   Proof.
     unfold g_step, fl_step. destruct (e_op e); try (simpl; auto; fail).
+    (* size / empty / capacity, when the source writes the observed quantity in another arithmetic form *)
+    all: try (unfold g_size, g_empty, g_capacity; cbn [bind req]; apply (f_equal (pair s)); f_equal;
+              first [ lia | match goal with |- ?a = ?b :> bool => destruct a eqn:?, b eqn:?; try reflexivity; arith end ]; fail).
     - unfold g_insert_3. callee (g_do_insert_update_ok s k v a). unfold bind. crush; finish.
     - callee (g_insert_range_ok s l a). unfold bind. crush; finish.
     - callee (g_erase_1_ok s k). unfold bind. crush; finish.
